@@ -10,7 +10,7 @@
     templates and environments by the C01 check.  Attribute names are covered for plain characters (F06).
     OBLIGATIONS: C01_static_tree_reads_as_its_html C01_static_body_reads_as_its_html C01_static_template_code
                  C01_static_template_literal_value C01_static_document_survives_whitespace_pass
-                 C01_template_with_interpolation_code C01_segments_of_static_tree C01_nonvacuous C01_nonvacuous_dynamic C01_nonvacuous_helpers C01_nonvacuous_filters *)
+                 C01_template_with_interpolation_code C01_segments_of_static_tree C01_nonvacuous C01_nonvacuous_dynamic C01_nonvacuous_helpers C01_nonvacuous_filters C01_nonvacuous_braces *)
 From GV Require Import Compiler.Compile Base.Regex Proofs.Utf8Proofs Proofs.QuoteProofs Proofs.EmitProofs Proofs.StaticProofs Proofs.StaticNukeProofs Proofs.DynamicProofs Proofs.SegProofs.
 From Coq Require Import Lia.
 Open Scope N_scope.
@@ -64,7 +64,8 @@ Print Assumptions C01_static_document_survives_whitespace_pass.
 (** templates with interpolation, `=` scripts, unescaped `!=` / `!` lines, dynamic and conditional attributes, object
     references `[obj]` (goht.ObjectID / BuildClassList), `@attributes` (goht.BuildAttributeList), the whitespace marks
     `>` `<`, comment blocks, the :javascript / :css / :plain / :escaped filters, and
-    `-` lines (Go statements, blocks written without braces: if / else if / else chains, for, switch with its case lines):
+    `-` lines (Go statements; blocks written without braces: if / else if / else chains, for, switch with its case lines;
+    blocks written with their own braces: `- if x {` ... `- } else {` ... `- }`):
     the generated body is a run of literal chunks, dynamic blocks and Go statements `stmt { ... }`, [denotes],
     standing for the segments [segs_list body]: literal HTML ([SLit]), for each `= expr` / `#{expr}` the
     EscapeString-ed value of the expression ([SDyn]; [SRaw], the value as it is, after `!`), and for each `-` line its statement around the code of its
@@ -178,7 +179,7 @@ Proof.
     | |- dyn_attr _ => unfold dyn_attr; cbn
     | |- plain _ => unfold plain
     | |- static_class _ => unfold static_class; cbn
-    | |- block_stmt _ \/ _ => first [left; unfold block_stmt; vm_compute; repeat split; reflexivity | right; vm_compute; repeat split; reflexivity]
+    | |- block_stmt _ \/ _ \/ _ => first [left; unfold block_stmt; vm_compute; repeat split; reflexivity | right; left; vm_compute; repeat split; reflexivity | right; right; vm_compute; repeat split; reflexivity]
     | |- block_stmt _ => unfold block_stmt; vm_compute
     | |- raw_child _ => cbn [raw_child]; cbn
     | |- _ <> [] => discriminate
@@ -246,3 +247,36 @@ Proof.
   repeat dn2. all: try lia; try discriminate; try reflexivity.
 Qed.
 Print Assumptions C01_nonvacuous_filters.
+
+(** the same control flow written with explicit braces: three lines of Go, two of them with nested content *)
+Definition ex5_src : bytes :=
+  lit "@goht T(a string) {" ++ [10; 9] ++ lit "- if a == """" {" ++ [10; 9; 9] ++ lit "%s x" ++ [10; 9] ++
+  lit "- } else {" ++ [10; 9; 9] ++ lit "%s y" ++ [10; 9] ++ lit "- }" ++ [10] ++ lit "}" ++ [10].
+Definition ex5_items : list node :=
+  Eval vm_compute in match compile_parse ex5_src with ODone (Node _ items) None => items | _ => [] end.
+
+Example C01_nonvacuous_braces :
+  match ex5_items with
+  | Node (KGoht o) body :: _ =>
+      Forall dyn_node body /\ kids_ok body /\
+      match segs_list false body with
+      | [SLine s1 b1; SLine s2 b2; SStmt s3] =>
+          s1 = lit "if a == """" {" /\ s2 = lit "} else {" /\ s3 = lit "}" /\
+          eval_segs (fun e => e) b1 = lit "<s>x</s>" ++ [10] /\ eval_segs (fun e => e) b2 = lit "<s>y</s>" ++ [10]
+      | _ => False
+      end
+  | _ => False
+  end.
+Proof.
+  cbv [ex5_items]. split; [|split; [vm_compute; repeat split; try reflexivity; intros; try assumption; discriminate|vm_compute; repeat split; reflexivity]].
+  Ltac dn3 :=
+    first [ dn2
+          | match goal with
+            | |- block_stmt _ \/ _ \/ _ =>
+                first [ left; unfold block_stmt; vm_compute; repeat split; reflexivity
+                      | right; left; vm_compute; repeat split; reflexivity
+                      | right; right; vm_compute; repeat split; reflexivity ]
+            end ].
+  repeat dn3. all: try lia; try discriminate; try reflexivity.
+Qed.
+Print Assumptions C01_nonvacuous_braces.
